@@ -1,5 +1,6 @@
 #!/venv/bin/python
-"""Every finding's replay file must reproduce its violation on the commit BEFORE its repair and must not on HEAD.
+"""Every finding's replay file must reproduce its violation on the commit BEFORE its repair (or on the commit named
+in INDEX.json 'reproduces_at' when the replay was minimised on the original tree) and must not on HEAD.
 Uses one scratch worktree under /tmp (removed afterwards).  Writes evidence/selftest_findings.json."""
 import json
 import os
@@ -16,7 +17,7 @@ out, bad = {}, 0
 try:
     for f, meta in sorted(idx.items()):
         path = os.path.join(HERE, "findings", f)
-        subprocess.check_call(["git", "-C", wt, "checkout", "-q", "--detach", meta["fixed_by"] + "~1"])
+        subprocess.check_call(["git", "-C", wt, "checkout", "-q", "--detach", meta.get("reproduces_at") or meta["fixed_by"] + "~1"])
         env = dict(os.environ, VERIF_REPO=wt)
         before = subprocess.run([os.path.join(HERE, "check"), meta["property"], "--replay", path], env=env, cwd=HERE,
                                 capture_output=True, text=True).returncode
